@@ -344,5 +344,13 @@ func c01(args []string) int {
 		}
 	}
 	sh.Close()
+
+	// ---------------------------------------------------------------- HTTP/1 request URI
+	run.Sum.Rule += " || url part: request targets generated from path segments (unreserved / sub-delims / escaped bytes incl. %2F %2e %00 %25, '', '.', '..'), '//' and trailing '/', optional query (incl. empty, '?', '=', '//' and '..' inside the query), '*', plus malformed extras (fragment, raw space, raw non-ASCII, invalid escapes; correspondence only). (1) hook level: the REAL fasthttp URI parser, injectCtxVarFromProtocolHeaders and buildUrlFromCtxVar, and buildUrlFromCtxVar on arbitrary (path, pathOriginal, query) triples incl. rewritten paths, compared with Model/UrlBuild.v; (2) end to end: raw client -> real MOSN HTTP/1 proxy listener -> raw recording upstream, forwarded request line compared byte for byte. Non-trivial: the target contains an escape, a query, '//' or '..'."
+	urlHookPart(run)
+	if err := urlE2EPart(run, e); err != nil {
+		fmt.Println("url e2e:", err)
+		return 2
+	}
 	return run.Finish()
 }
